@@ -207,7 +207,7 @@ class InstrumentedServer:
                 datetime.fromtimestamp(t, timezone.utc).isoformat(),
             ), namespace=self.admin_namespace)
         elif event == 'disconnect':
-            del self.sio.manager._timestamps[sid]
+            self.sio.manager._timestamps.pop(sid, None)
             reason = args[1]
             self.sio.emit('socket_disconnected', (
                 namespace,
